@@ -12,7 +12,7 @@ Local Open Scope R_scope.
 (* --- the SURFACE_CB row of a diffuse-double-layer surface is the Gouy-Chapman equation between the values that EDL("psi") and
    EDL("sigma") report: residual = 0 <-> sigma = sqrt(8000 eps eps0 R T I) sinh(F psi / 2RT) --- *)
 Theorem ddl_residual_is_gouy_chapman :
-  forall la mu eps tk f A g, 0 <= mu -> 0 <= eps -> 0 < tk ->
+  forall la mu eps tk f A g, 0 <= mu -> 0 <= eps -> 0 < tk -> A * g <> 0 ->
   let L := ln 10 in
   let psi := evalR (env_of [la; L; tk]) edl_psi in
   let sigma := evalR (env_of [f; A; g]) edl_sigma in
@@ -22,7 +22,7 @@ Print Assumptions ddl_residual_is_gouy_chapman.
 
 (* --- constant capacitance: residual = 0 <-> sigma = C psi --- *)
 Theorem ccm_residual_is_C_psi :
-  forall la tk C f A g,
+  forall la tk C f A g, A * g <> 0 ->
   let L := ln 10 in
   let psi := evalR (env_of [la; L; tk]) edl_psi in
   let sigma := evalR (env_of [f; A; g]) edl_sigma in
@@ -121,7 +121,7 @@ Print Assumptions surface_activity_and_site_row.
    data); charge_row_fails / site_row_fails (coq/C20/Guards.v) are their meaning --- *)
 Theorem surface_row_guards_shape :
   guards_shape_ok = true.
-Proof. exact Summary.surface_row_guards_shape_all. Qed.
+Proof. vm_compute. reflexivity. Qed.
 Print Assumptions surface_row_guards_shape.
 
 (* --- PARTIAL w.r.t. the property: the charge rows are tested with an ABSOLUTE tolerance (C/m2, resp. mol of charge with an explicit
@@ -130,13 +130,13 @@ Print Assumptions surface_row_guards_shape.
    That the Newton iteration ends with all guards false ("OK") is an oracle.
    Full statement wanted: OK -> |sigma - law(psi)| <= 1e-8 |law(psi)|; proved: OK -> |sigma - law(psi)| <= toler --- *)
 Theorem ok_implies_laws_partial :
-  (forall la mu eps tk f A g minrel toler, 0 <= mu -> 0 <= eps -> 0 < tk -> g > minrel ->
+  (forall la mu eps tk f A g minrel toler, 0 <= mu -> 0 <= eps -> 0 < tk -> A * g <> 0 -> g > minrel ->
     let L := ln 10 in
     let psi := evalR (env_of [la; L; tk]) edl_psi in
     let sigma := evalR (env_of [f; A; g]) edl_sigma in
     ~ charge_row_fails g minrel (evalR (env_of [la; L; mu; eps; tk; f; A; g]) ddl_res) toler ->
     Rabs (sigma - gouy_chapman eps tk mu psi) <= toler) /\
-  (forall la tk C f A g minrel toler, g > minrel ->
+  (forall la tk C f A g minrel toler, A * g <> 0 -> g > minrel ->
     let L := ln 10 in
     let psi := evalR (env_of [la; L; tk]) edl_psi in
     let sigma := evalR (env_of [f; A; g]) edl_sigma in
